@@ -1,7 +1,8 @@
 """C03 - batched and stepwise evaluation agree; prev_hedge is the last output.
 R1 every state-independent feature: get(i) == get(None)[:, [i]] (column algebra); R2 both branches of compute_hedge feed
 the model the same per-step input; R3 the prev-hedge chain: hook registration, buffer name agreement, zero reset
-of shape (N,1,H) before the loop, model invoked through self(...), state-dependence selects the branch."""
+of shape (N,1,H) before the loop, model invoked through self(...), state-dependence selects the branch.
+Added after the seeded-defect rounds: R2 also: declared feature order in the step-by-step branch (probed with prev_hedge first) and the same last column in both branches; R3c-e on every path."""
 import sympy as sp
 
 from .. import entrypoints as E
